@@ -94,7 +94,7 @@ SPECS["actor.rs::run_actor_lifecycle"] = dict(
     attrs=["#[verifier::exec_allows_no_decreases_clause]"],
     select_carrier="actor",
     dyn_calls={"handle_message": "vx_dyn__handle_message"},
-    raii={"_metrics_guard": "drop__MessageProcessingGuard"},
+    raii={"init:MessageProcessingGuard::new(": "drop__MessageProcessingGuard"},
     requires=[
         C("lifecycle.pre.mailbox_is_refs_mailbox", "C01 C02", "receiver.chan() == actor_ref.mbx_chan()"),
         C("lifecycle.pre.control_is_refs_control", "C06", "terminate_receiver.chan() == actor_ref.ctl_chan()"),
@@ -220,7 +220,8 @@ def _ask(features):
     ])
     d["requires"] = ASK_PRE
     if "deadlock-detection" in features:
-        d["raii"] = {"graph": "drop", "_guard": "vx_drop_opt_guard"}
+        # guards are recognised by what they are initialised from, not by their names
+        d["raii"] = {"init:.lock(": "drop", "init:WaitForGuard(": "vx_drop_opt_guard"}
         d["proofs"] = [("drop(graph, w);",
                         "proof { assert(caller.id == callee.id || chain_unanswered(graph@, callee.id, caller.id)); /*L:ask.deadlock_panic.requires_unanswered_chain*/ }\n"
                         "proof { assert(graph@ == w.graph()); /*L:ask.deadlock_panic.leaves_graph_as_found*/ }\n"
@@ -370,9 +371,9 @@ def _erased():
             C("erased.box_%s.clone.same_actor" % tr, "C16 C11", "r.target() == this.target()")])
         src = "ActorWeak" if tr.startswith("Weak") else "ActorRef"
         S["%s::From<%s> for Box<dyn %s>::from" % (file, src, tr)] = dict(pure=True, ensures=[
-            C("erased.from_%s_for_%s.same_actor" % (src, tr), "C16 C11 C07", "r.target() == %s.hv()" % ("actor_weak" if src == "ActorWeak" else "actor_ref"))])
+            C("erased.from_%s_for_%s.same_actor" % (src, tr), "C16 C11 C07", "r.target() == $1.hv()")])
         S["%s::From<&%s> for Box<dyn %s>::from" % (file, src, tr)] = dict(pure=True, ensures=[
-            C("erased.from_ref_%s_for_%s.same_actor" % (src, tr), "C16 C11 C07", "r.target() == %s.hv()" % ("actor_weak" if src == "ActorWeak" else "actor_ref"))])
+            C("erased.from_ref_%s_for_%s.same_actor" % (src, tr), "C16 C11 C07", "r.target() == $1.hv()")])
     return S
 
 
@@ -401,7 +402,7 @@ def _ar():
     law("to_result", "r == (match self { ActorResult::Completed { actor, .. } => Ok::<T, T::Error>(actor), ActorResult::Failed { error, .. } => Err::<T, T::Error>(error) })")
     S["actor_result.rs::From<ActorResult> for tuple::from"] = dict(pure=True, ensures=[
         C("actor_result.from_tuple.agrees_with_fields", "C05",
-          "r == (match result { ActorResult::Completed { actor, .. } => (Some(actor), None::<T::Error>), ActorResult::Failed { actor, error, .. } => (actor, Some(error)) })")])
+          "r == (match $1 { ActorResult::Completed { actor, .. } => (Some(actor), None::<T::Error>), ActorResult::Failed { actor, error, .. } => (actor, Some(error)) })")])
     return S
 
 
@@ -427,7 +428,7 @@ SPECS["lib.rs::has_path"] = dict(pure=True,
         ("None => return false", "None => { proof { assert(walk(graph@, from, (_vx_i + 1) as nat) is None); lemma_no_reach_after_none(graph@, from, to, _vx_i as nat); } return false }", "replace"),
     ])
 SPECS["lib.rs::Drop for WaitForGuard::drop"] = dict(
-    raii={"graph": "drop"}, no_panic=True, by_value=True,
+    raii={"init:.lock(": "drop"}, no_panic=True, by_value=True,
     ensures=[
         C("wait_for_guard.drop.removes_exactly_its_edge_and_unlocks", "C15 C12", "guard_removed(this.0, *old(w), *final(w))"),
         C("wait_for_guard.drop.frame", "C12",
